@@ -36,14 +36,25 @@ for sid in sorted(os.listdir(V + '/seeded')):
     sig = str(c.get('first_signature', '')).split(' (')[0]
     r = rc.get(sid, {})
     print('| %s | %s | %s | %s | `%s` | %s | %s |' % (sid, str(m.get('site', ''))[:90].replace('|', '/'), 'yes', pids, sig.replace('|', '\\|')[:90], missed, r.get('status', '?')))
-print('\n### evidence\n')
-print('| id | tier | units | states | transitions (evaluations) | compared with oracle | distinct outcomes | known-finding cases | wall s |')
-print('|---|---|---|---|---|---|---|---|---|')
-for f in sorted(os.listdir(V + '/evidence')):
-    e = json.load(open(V + '/evidence/' + f))
-    c = e['coverage']
-    print('| %s | %s | %s/%s | %s | %s | %s | %s | %s | %s |' % (e['property_id'], e['tier'], c['units_completed'], c['units_total'], c['states'], c['transitions'], c['traces_validated_against_impl'],
-                                                          c['distinct_outcomes'], sum(c.get('known_finding_case_counts', {}).values()), e['wall_s']))
+print('\n### runs on the final tree (tools/run_all.py; files under /verif/runs)\n')
+import glob
+runs = {}
+for f in sorted(glob.glob(V + '/runs/*.json')):
+    runs[os.path.basename(f)[:-5]] = json.load(open(f))
+quick = {k: v for k, v in runs.items() if k.startswith('quick_')}
+th = runs.get('thorough_seed0', {})
+print('| id | quick: units | states | transitions (evaluations) | compared with oracle | outcomes | wall s | exit codes over seeds %s | same case-outcome digest over seeds | thorough: units | states | transitions | wall s | exit |' % ','.join(sorted(k.split('seed')[1] for k in quick)))
+print('|---|---|---|---|---|---|---|---|---|---|---|---|---|---|')
+for pid in ['C%02d' % i for i in range(1, 21)]:
+    qs = [quick[k].get(pid) for k in sorted(quick)]
+    qs = [q for q in qs if q]
+    q0 = qs[0] if qs else {}
+    digs = {q.get('digest') for q in qs}
+    t = th.get(pid, {})
+    print('| %s | %s | %s | %s | %s | %s | %s | %s | %s | %s | %s | %s | %s | %s |' % (
+        pid, q0.get('units'), q0.get('states'), q0.get('transitions'), q0.get('compared'), q0.get('outcomes'), q0.get('wall_s'),
+        ' '.join(str(q.get('exit')) for q in qs), 'yes' if len(digs) == 1 and None not in digs else 'NO' if qs else '-',
+        t.get('units'), t.get('states'), t.get('transitions'), t.get('wall_s'), t.get('exit')))
 
 if "--write" in sys.argv:
     sys.stdout = _real
